@@ -335,6 +335,10 @@ func runCase(id int, d Defaults, c *Case) {
 			if k.Col != baseCol {
 				if bc, ok := tab.Cells[benchtab.TableKey{Row: k.Row, Col: baseCol}]; ok {
 					wc := as.Compare(sampleOf(run, bc.Sample.Values), sampleOf(run, cell.Sample.Values))
+					// n= names the baseline's sample size first, then the cell's own
+					if cell.Comparison.N1 != len(bc.Sample.Values) || cell.Comparison.N2 != len(cell.Sample.Values) {
+						statBad = fmt.Sprintf("n:%s-reports-%d+%d-for-baseline-%d-and-cell-%d", name, cell.Comparison.N1, cell.Comparison.N2, len(bc.Sample.Values), len(cell.Sample.Values))
+					}
 					if cell.Baseline != bc || hx.F64(wc.P) != hx.F64(cell.Comparison.P) || wc.N1 != cell.Comparison.N1 || wc.N2 != cell.Comparison.N2 || wc.Alpha != cell.Comparison.Alpha {
 						statBad = "compare:" + name
 					}
@@ -418,7 +422,7 @@ func runCase(id int, d Defaults, c *Case) {
 		return strings.Join(ps, "|")
 	}
 	if prop == "C14" {
-		hx.Printf("sobs %d cells=%s resw=%s gmw=%s assume=%s stats=%s colpos=%s hdrcfg=%s order=%s rawcells=%s bin=%s\n", id, sortJoin(cellParts), sortJoin(reswParts), sortJoin(gmParts), sortJoin(asParts), statBad, strings.ReplaceAll(colPosCheck(run), " ", "_"), strings.ReplaceAll(hdrCfgCheck(run, s), " ", "_"), orderField(orderParts, specsOK), rawCellsDigest(run, s, specsOK), binState)
+		hx.Printf("sobs %d cells=%s resw=%s gmw=%s assume=%s stats=%s labels=%s colpos=%s hdrcfg=%s order=%s rawcells=%s bin=%s\n", id, sortJoin(cellParts), sortJoin(reswParts), sortJoin(gmParts), sortJoin(asParts), statBad, strings.ReplaceAll(labelsCheck(c, run), " ", "_"), strings.ReplaceAll(colPosCheck(run), " ", "_"), strings.ReplaceAll(hdrCfgCheck(run, s), " ", "_"), orderField(orderParts, specsOK), rawCellsDigest(run, s, specsOK), binState)
 	} else {
 		schedCase(id, dir, c, args, run)
 	}
